@@ -7,12 +7,21 @@ EXTERNAL = [
 
 PROPS = {
     "C01": {
-        "suites": [("entity", 3000, 60000)],
+        "suites": [("entity", 3000, 60000), ("rt", 2500, 60000)],
         "show_constants": True,
         "proved_scope": "character level: parse_content(serialize_text s)=s and parse_content(serialize_attribute s)=s for every string; escaped output free of raw '<' / '\"' / TAB / LF / CR",
         "not_proved": "tree level (C01_main): serializer + tokenizer contract + builder",
         "modelled": EXTERNAL,
         "assumptions": ["NoopNormalizer (identity) is the normalizer"],
+    },
+    "C08": {
+        "suites": [("idmap", 200, 3000)],
+        "show_constants": True,
+        "proved_scope": "generic in the id width: table invariant (by_value = graph of v -> to_id(index in by_id), by_id duplicate-free) holds of Xot::new() and is preserved by every registration; with at most 2^bits distinct values: equal ids <=> equal values (names: (local, namespace id)), get_value/get_id inverse, read-only lookups find exactly the registered values; id/value pairs persist under any further history (no bound); built-ins distinct and resolving to the standard strings (decide over builtinRegistrations); clone answers alike; the unbounded claim is refuted at every width (C08_wraps, C08_full_false) and at the extracted widths from Xot::new() (n65534 -> xml:space / empty prefix / no namespace)",
+        "not_proved": "that parse()/html5() perform exactly the get_id_mut calls the harness observes (covered by the `implicit` correspondence requests, not by a parser model); consequences for trees (names compare equal across trees iff expanded names equal) are the table statement plus the tree layers of C01/C09",
+        "modelled": EXTERNAL + ["ahash HashMap as a finite map (get = first match of an association list, insert = cons)"],
+        "assumptions": ["derived Clone of Vec/HashMap/String yields equal values (extractor checks the derives)",
+                        "release profile: `index as u16` truncates silently (it does in every profile)"],
     },
     "C14": {
         "suites": [("entity", 3000, 60000)],
@@ -59,5 +68,25 @@ PROPS = {
             "text comparisons and filters are pure total functions of their arguments (filter of the node's own subtree)",
             "attribute lists have fewer than 2^64 entries (hypothesis of C13_shallow*)",
         ],
+    "C04": {
+        "suites": [("forest", 300, 6000)],
+        "proved_scope": "invariant Forest.inv defined (decidable); proved: holds initially, preserved by set_text_consolidation; value updates never create, lose or reorder a handle. The invariant is additionally evaluated on the model state after every step of every correspondence history and compared with an independent validator on the real forest",
+        "not_proved": "preservation of Forest.inv by each moving / creating / removing operation (C04_step), hence C04_reach by induction; monotonicity of is_removed (holds in the model by construction of fresh handles, not yet stated as a theorem)",
+        "modelled": EXTERNAL + ["handles are creation-order numbers; indextree slot reuse and the 15-bit stamp are below the model"],
+        "assumptions": ["arguments are live handles"],
+    },
+    "C06": {
+        "suites": [("forest", 300, 6000)],
+        "proved_scope": "every refusal produced by the argument checks (structure check, sibling reference check, replace / element_wrap / element_unwrap pre-checks) returns the forest unchanged; same-position append is the identity",
+        "not_proved": "that no error can arise after the checks (late NodeError unreachable under the invariant) and absence of panics under the invariant",
+        "modelled": EXTERNAL,
+        "assumptions": ["arguments are live handles"],
+    },
+    "C11": {
+        "suites": [("forest", 300, 6000)],
+        "proved_scope": "updating an existing key keeps every node and handle in place; removing an absent key is the identity; element-only accessors panic without change on non-elements. Agreement of the read-only and the mutable view is checked on the implementation after every step (both Rust copies against the model's single definition)",
+        "not_proved": "refinement of insert/remove/clear/insert_node to an insertion-ordered association list (C11_refine) and C11_order",
+        "modelled": EXTERNAL,
+        "assumptions": ["arguments are live handles"],
     },
 }
